@@ -290,7 +290,7 @@ def solver_task(T, name, warm, props, shard=(0, 1)):
         if key in seen_sites:
             continue
         seen_sites.add(key)
-        if (o['info'].get('prop', 'C01') in props or (o['info'].get('prop') == 'C03' and 'C04' in props)) \
+        if (o['info'].get('prop', 'C01') in props or 'SITES' in props or (o['info'].get('prop') == 'C03' and 'C04' in props)) \
                 and len(seen_sites) % shard[1] == shard[0]:
             T.prove(f"{cfg}/site:{o['name']}#{len(seen_sites)}", o['pc'], o['goal'], note=f"line {o['line']}",
                     replay=dict(fn='contracts.repro:solver_cert', args=dict(solver=name)))
@@ -311,7 +311,7 @@ def solver_task(T, name, warm, props, shard=(0, 1)):
             continue
         if 'C01' in props or 'C05' in props:
             c01_return(T, cfg, k, st, w, stop, nitems, tol, fi, props)
-        if props == ('C03',):
+        if props == ('C03',) or props == ('SITES',):
             continue
         if 'C17' in props:
             c17_return(T, cfg, k, st, w, objs, stop, fi)
